@@ -103,3 +103,152 @@ deser_harness!(deser_alloc_len3_free3, 3, 3);
 deser_harness!(deser_alloc_len1_free2, 1, 2);
 deser_harness!(deser_alloc_len3_free2, 3, 2);
 deser_harness!(deser_alloc_len2_free3, 2, 3);
+
+// ------------------------------------------------------------------ serialize -> deserialize round trip (C06)
+// A harness-local serde Serializer that records the scalar stream produced by the real
+// `Serialize for Allocator` (length, then (index, generation) per free entry); the recorded
+// stream is handed to the real `from_serialized_parts`.
+use serde::ser::{self, Serialize};
+
+const CAP: usize = 16;
+static mut STREAM: [u64; CAP] = [0; CAP];
+static mut STREAM_LEN: usize = 0;
+
+#[derive(Debug)]
+pub struct SErr;
+impl core::fmt::Display for SErr {
+    fn fmt(&self, _f: &mut core::fmt::Formatter) -> core::fmt::Result {
+        Ok(())
+    }
+}
+impl ser::StdError for SErr {}
+impl ser::Error for SErr {
+    fn custom<T: core::fmt::Display>(_msg: T) -> Self {
+        SErr
+    }
+}
+
+fn rec(v: u64) -> Result<(), SErr> {
+    unsafe {
+        if STREAM_LEN >= CAP {
+            return Err(SErr);
+        }
+        STREAM[STREAM_LEN] = v;
+        STREAM_LEN += 1;
+    }
+    Ok(())
+}
+
+struct Rec;
+macro_rules! unsupported {
+    ($($name:ident($ty:ty)),*) => { $( fn $name(self, _v: $ty) -> Result<(), SErr> { Err(SErr) } )* };
+}
+impl ser::Serializer for Rec {
+    type Ok = ();
+    type Error = SErr;
+    type SerializeSeq = Rec;
+    type SerializeTuple = ser::Impossible<(), SErr>;
+    type SerializeTupleStruct = ser::Impossible<(), SErr>;
+    type SerializeTupleVariant = ser::Impossible<(), SErr>;
+    type SerializeMap = ser::Impossible<(), SErr>;
+    type SerializeStruct = Rec;
+    type SerializeStructVariant = ser::Impossible<(), SErr>;
+    fn serialize_u64(self, v: u64) -> Result<(), SErr> {
+        rec(v)
+    }
+    unsupported!(serialize_bool(bool), serialize_i8(i8), serialize_i16(i16), serialize_i32(i32), serialize_i64(i64),
+        serialize_u8(u8), serialize_u16(u16), serialize_u32(u32), serialize_f32(f32), serialize_f64(f64),
+        serialize_char(char), serialize_str(&str), serialize_bytes(&[u8]));
+    fn serialize_none(self) -> Result<(), SErr> { Err(SErr) }
+    fn serialize_some<T: ?Sized + Serialize>(self, _v: &T) -> Result<(), SErr> { Err(SErr) }
+    fn serialize_unit(self) -> Result<(), SErr> { Err(SErr) }
+    fn serialize_unit_struct(self, _n: &'static str) -> Result<(), SErr> { Err(SErr) }
+    fn serialize_unit_variant(self, _n: &'static str, _i: u32, _v: &'static str) -> Result<(), SErr> { Err(SErr) }
+    fn serialize_newtype_struct<T: ?Sized + Serialize>(self, _n: &'static str, v: &T) -> Result<(), SErr> { v.serialize(Rec) }
+    fn serialize_newtype_variant<T: ?Sized + Serialize>(self, _n: &'static str, _i: u32, _v: &'static str, _t: &T) -> Result<(), SErr> { Err(SErr) }
+    fn serialize_seq(self, _len: Option<usize>) -> Result<Rec, SErr> { Ok(Rec) }
+    fn serialize_tuple(self, _len: usize) -> Result<Self::SerializeTuple, SErr> { Err(SErr) }
+    fn serialize_tuple_struct(self, _n: &'static str, _len: usize) -> Result<Self::SerializeTupleStruct, SErr> { Err(SErr) }
+    fn serialize_tuple_variant(self, _n: &'static str, _i: u32, _v: &'static str, _len: usize) -> Result<Self::SerializeTupleVariant, SErr> { Err(SErr) }
+    fn serialize_map(self, _len: Option<usize>) -> Result<Self::SerializeMap, SErr> { Err(SErr) }
+    fn serialize_struct(self, _n: &'static str, _len: usize) -> Result<Rec, SErr> { Ok(Rec) }
+    fn serialize_struct_variant(self, _n: &'static str, _i: u32, _v: &'static str, _len: usize) -> Result<Self::SerializeStructVariant, SErr> { Err(SErr) }
+}
+impl ser::SerializeSeq for Rec {
+    type Ok = ();
+    type Error = SErr;
+    fn serialize_element<T: ?Sized + Serialize>(&mut self, v: &T) -> Result<(), SErr> { v.serialize(Rec) }
+    fn end(self) -> Result<(), SErr> { Ok(()) }
+}
+impl ser::SerializeStruct for Rec {
+    type Ok = ();
+    type Error = SErr;
+    fn serialize_field<T: ?Sized + Serialize>(&mut self, _k: &'static str, v: &T) -> Result<(), SErr> { v.serialize(Rec) }
+    fn end(self) -> Result<(), SErr> { Ok(()) }
+}
+
+/// an allocator whose 3 slots were all released, with a free list whose ring buffer has wrapped
+fn released_wrapped(wrap: bool) -> Allocator<R> {
+    let idb = unsafe { crate::archetype::Identifier::<R>::new(alloc::vec![1]) };
+    let idref = unsafe { idb.as_ref() };
+    let mut a = Allocator::<R>::new();
+    let i0 = a.allocate(Location::new(idref, 0));
+    let i1 = a.allocate(Location::new(idref, 1));
+    let i2 = a.allocate(Location::new(idref, 2));
+    unsafe {
+        a.free_unchecked(i0);
+        a.free_unchecked(i1);
+        a.free_unchecked(i2);
+    }
+    if wrap {
+        let j0 = a.allocate(Location::new(idref, 0));
+        let j1 = a.allocate(Location::new(idref, 1));
+        unsafe {
+            a.free_unchecked(j0);
+            a.free_unchecked(j1);
+        }
+    }
+    let mut i = 0;
+    while i < 3 {
+        a.slots[i].generation = kani::any();
+        i += 1;
+    }
+    a
+}
+
+/// The real `Serialize for Allocator` emits exactly the projection (slot count, then
+/// (index, generation) of every free entry in free-list order) -- also when the free list's ring
+/// buffer has wrapped.  Together with the deser_alloc_len* harnesses (which show that
+/// from_serialized_parts reproduces slot count, generations and free order from exactly that
+/// projection) this is the allocator leg of the round trip.  (Running both halves inside one
+/// harness makes CBMC report a dealloc-size mismatch inside std's in-place `collect`, which the
+/// same call does not show on its own; the halves are therefore checked separately.)
+fn check_serialized_projection(wrap: bool) {
+    let a = released_wrapped(wrap);
+    unsafe { STREAM_LEN = 0 };
+    let r = a.serialize(Rec);
+    assert!(r.is_ok());
+    let n = unsafe { STREAM_LEN };
+    assert!(n == 1 + 2 * a.free.len(), "C06: the whole free list is serialized (every released slot accounted for)");
+    assert!(unsafe { STREAM[0] } as usize == a.slots.len(), "C06: slot count serialized");
+    let mut i = 0;
+    while i < 3 {
+        let index = unsafe { STREAM[1 + 2 * i] } as usize;
+        let generation = unsafe { STREAM[2 + 2 * i] };
+        assert!(index == a.free[i], "C06: free entries serialized in free-list order");
+        assert!(generation == a.slots[a.free[i]].generation, "C06: each with its slot's generation");
+        i += 1;
+    }
+}
+
+#[kani::proof]
+#[kani::unwind(20)]
+fn deser_alloc_serialized_projection() {
+    check_serialized_projection(false);
+}
+
+#[kani::proof]
+#[kani::unwind(20)]
+fn deser_alloc_serialized_projection_wrapped() {
+    check_serialized_projection(true);
+}
